@@ -196,7 +196,7 @@ def run_case(ctx, dutils, stamps, vals, P, rainfall, G, variant=None, judged_sam
             return None
         raise
     nvalh, hs, exp = oracle(stamps, vals, P, rainfall, G)
-    vtag = "" if not variant else ":unit=%s:tz=%s%s" % (unit, "naive" if tz is None else "aware", ":clock-change" if variant.get("dst") else "")
+    vtag = "" if not variant else ":unit=%s:tz=%s%s" % (unit, "naive" if tz is None else "aware", ":clock-change" if variant.get("dst") else (":before-1970" if variant.get("epoch") else ""))
     try:
         res = dutils.var2h(se, nbsec_per_period=P, maxgapsec=G, rainfall=bool(rainfall))
     except Exception as e:
@@ -320,6 +320,8 @@ def _wall(txt):
 # zones whose clocks change two hours after the first possible stamp: the series is given in local wall-clock time
 # (stamps inside the skipped / repeated hour cannot be expressed and are left out); the result must be the one of
 # the naive index with the same wall-clock stamps
+EPOCH_VARIANTS = [{"unit": "ns", "tz": None, "t0": _wall("1965-03-04 00:00:00"), "epoch": True},
+                  {"unit": "s", "tz": None, "t0": _wall("1969-12-31 00:00:00"), "epoch": True}]
 DST_VARIANTS = [{"unit": "ns", "tz": "Australia/Sydney", "t0": _wall("2001-10-28 00:00:00"), "dst": "forward"},
                 {"unit": "s", "tz": "Australia/Sydney", "t0": _wall("2001-03-25 00:00:00"), "dst": "back"},
                 {"unit": "us", "tz": "America/New_York", "t0": _wall("2001-04-01 00:00:00"), "dst": "forward"}]
@@ -435,6 +437,15 @@ def run_unit(unit, ctx):
                                 "rainfall": rainfall, "G": G, "variant": var}
                         ctx.violation("var2h:variant-differs:unit=%s:tz=%s" % (var["unit"], "naive" if var["tz"] is None else "aware"), case,
                                       "result depends on index storage: %s (unit=%s tz=%s) vs %s (naive ns)" % (out.tolist(), var["unit"], var["tz"], ref.tolist()))
+            # the same series before the epoch (negative seconds since 1970: floor vs truncation), judged by the oracle
+            for var in EPOCH_VARIANTS:
+                out = run_case(ctx, dutils, stamps, vals, P, rainfall, G, variant=var)
+                if ref is not None and out is not None and len(out) == len(ref) and not np.array_equal(out, ref, equal_nan=True):
+                    case = {"stamps": list(stamps), "vals": [None if math.isnan(v) else v for v in vals], "P": P,
+                            "rainfall": rainfall, "G": G, "variant": var}
+                    ctx.violation("var2h:variant-differs:before-1970", case,
+                                  "result depends on the date of the series: %s (starting %s) vs %s (starting 2001-01-01)" % (
+                                      out.tolist(), pd.Timestamp(var["t0"], unit="s"), ref.tolist()))
             for var in DST_VARIANTS:
                 refd = run_case(ctx, dutils, stamps, vals, P, rainfall, G, variant={"unit": "ns", "tz": None, "t0": var["t0"]})
                 out = run_case(ctx, dutils, stamps, vals, P, rainfall, G, variant=var)
@@ -505,6 +516,11 @@ def replay(case):
         out = dutils.var2h(pd.Series(np.array(vals), index=idx), nbsec_per_period=case["P"], maxgapsec=case["G"], rainfall=bool(case["rainfall"])).values
         if not np.array_equal(out, ref, equal_nan=True):
             ctx.violation("var2h:variant-differs:date_range-default", case, "differs")
+    elif var and var.get("epoch"):
+        ref = run_case(ctx, dutils, case["stamps"], vals, case["P"], case["rainfall"], case["G"])
+        out = run_case(ctx, dutils, case["stamps"], vals, case["P"], case["rainfall"], case["G"], variant=var)
+        if ref is not None and out is not None and not np.array_equal(out, ref, equal_nan=True):
+            ctx.violation("var2h:variant-differs:before-1970", case, "differs")
     elif var and var.get("dst"):
         refd = run_case(ctx, dutils, case["stamps"], vals, case["P"], case["rainfall"], case["G"], variant={"unit": "ns", "tz": None, "t0": var["t0"]})
         out = run_case(ctx, dutils, case["stamps"], vals, case["P"], case["rainfall"], case["G"], variant=var)
